@@ -718,6 +718,191 @@ fn pad_counter_cmp(f: &syn::ImplItemFn) -> Result<bool, String> {
     }
 }
 
+
+// ------------------------------------------------------------------------------------------------
+// "update only" puts and the node's own size test
+// ------------------------------------------------------------------------------------------------
+
+/// arguments of the (first) call `name(..)` in `text`, split at top-level commas (a trailing comma is dropped)
+fn call_args(text: &str, name: &str) -> Option<Vec<String>> {
+    let start = text.find(&format!("{name}("))? + name.len() + 1;
+    let mut depth = 0i32;
+    let mut cur = String::new();
+    let mut out = vec![];
+    for c in text[start..].chars() {
+        match c {
+            '(' | '[' | '{' | '<' => {
+                depth += 1;
+                cur.push(c);
+            }
+            ')' | ']' | '}' | '>' if depth > 0 => {
+                depth -= 1;
+                cur.push(c);
+            }
+            ')' => {
+                if !cur.is_empty() {
+                    out.push(cur);
+                }
+                return Some(out);
+            }
+            ',' if depth == 0 => {
+                out.push(std::mem::take(&mut cur));
+            }
+            _ => cur.push(c),
+        }
+    }
+    None
+}
+
+/// how an arm passes the "must exist locally" argument (the last one) to a store function
+#[derive(PartialEq, Debug)]
+enum LastArg {
+    /// the call has the old arity: there is no such argument
+    Absent,
+    Lit(bool),
+    /// a local that starts `false` and is set to `true` exactly where a failed payment is tolerated because the
+    /// key was reported as held: `let mut v=false;if let Err(e)=self.payment_for_us..(..).await{if held{v=true;}else{return Err(e);}}`
+    OnToleratedPaymentFailure,
+}
+
+fn last_arg(what: &str, arm: &str, callee: &str, old_arity: usize) -> Result<LastArg, String> {
+    let args = call_args(arm, callee).ok_or(format!("{what}: call of {callee} not found"))?;
+    if arm.matches(&format!("{callee}(")).count() != 1 {
+        return Err(format!("{what}: {callee} is not called exactly once"));
+    }
+    if args.len() == old_arity {
+        return Ok(LastArg::Absent);
+    }
+    if args.len() != old_arity + 1 {
+        return Err(format!("{what}: {callee} called with {} arguments", args.len()));
+    }
+    let a = args[old_arity].as_str();
+    match a {
+        "true" => return Ok(LastArg::Lit(true)),
+        "false" => return Ok(LastArg::Lit(false)),
+        _ => {}
+    }
+    if !a.chars().all(|c| c.is_alphanumeric() || c == '_') {
+        return Err(format!("{what}: last argument `{a}` of {callee} is neither a literal nor a local"));
+    }
+    let v = regex::escape(a);
+    let re = Regex::new(&format!(
+        r"let mut {v}=false;if let Err\((\w+)\)=self\.payment_for_us_exists_and_is_still_valid\([^;{{}}]*\)\.await\{{if (\w+)\{{{v}=true;\}}else\{{return Err\((\w+)\);\}}\}}"
+    ))
+    .expect("re");
+    let c = re.captures(arm).ok_or(format!("{what}: `{a}` is not set in the recognised way"))?;
+    if c[1] != c[3] || !resolve(arm, &c[2]).contains("validate_key_and_existence(") {
+        return Err(format!("{what}: `{a}` is not tied to the existence answer / the payment error in the recognised way"));
+    }
+    // no other assignment
+    if Regex::new(&format!(r"\b{v}=[^=]")).expect("re").find_iter(arm).count() != 2 {
+        return Err(format!("{what}: `{a}` is assigned elsewhere"));
+    }
+    Ok(LastArg::OnToleratedPaymentFailure)
+}
+
+/// flag of one "update only" site: the store function has the rejection (`has_check`), and the arm in question passes
+/// `want`; every other arm must pass `false`.  New shape absent everywhere = `false`.
+fn needs_local(what: &str, has_check: Option<bool>, site: &LastArg, want: &LastArg, others: &[&LastArg]) -> Result<bool, String> {
+    match has_check {
+        None => Err(format!("{what}: the rejection of a put without a local copy has an unrecognised shape")),
+        Some(false) => {
+            if *site == LastArg::Absent && others.iter().all(|o| **o == LastArg::Absent) {
+                Ok(false)
+            } else {
+                Err(format!("{what}: call sites pass an extra argument the store function does not take"))
+            }
+        }
+        Some(true) => {
+            if others.iter().any(|o| **o != LastArg::Lit(false)) {
+                return Err(format!("{what}: a paid / replication call site does not pass `false`"));
+            }
+            if site == want {
+                Ok(true)
+            } else if *site == LastArg::Lit(false) {
+                Ok(false)
+            } else {
+                Err(format!("{what}: the call site passes {site:?}, expected {want:?} or `false`"))
+            }
+        }
+    }
+}
+
+/// source text of a file of a registry crate at the version pinned in Cargo.lock
+fn registry_file(repo: &PathBuf, krate: &str, rel: &str) -> Result<String, String> {
+    let lock = std::fs::read_to_string(repo.join("Cargo.lock")).map_err(|e| format!("Cargo.lock: {e}"))?;
+    let mut ver = None;
+    let mut lines = lock.lines();
+    while let Some(l) = lines.next() {
+        if l.trim() == format!("name = \"{krate}\"") {
+            if let Some(v) = lines.next() {
+                ver = v.trim().strip_prefix("version = \"").and_then(|s| s.strip_suffix('"')).map(|s| s.to_string());
+            }
+            break;
+        }
+    }
+    let ver = ver.ok_or(format!("{krate} not found in Cargo.lock"))?;
+    let home = std::env::var("CARGO_HOME").unwrap_or_else(|_| format!("{}/.cargo", std::env::var("HOME").unwrap_or_else(|_| "/root".into())));
+    let src = PathBuf::from(home).join("registry/src");
+    for d in std::fs::read_dir(&src).map_err(|e| format!("{}: {e}", src.display()))? {
+        let p = d.map_err(|e| e.to_string())?.path().join(format!("{krate}-{ver}/{rel}"));
+        if p.exists() {
+            return std::fs::read_to_string(&p).map_err(|e| format!("{}: {e}", p.display()));
+        }
+    }
+    Err(format!("{krate}-{ver}/{rel} not found in the cargo registry"))
+}
+
+/// `const NAME: T = a * b * c;` anywhere in `src` (product of integer literals)
+fn const_product(src: &str, name: &str) -> Result<u128, String> {
+    let re = Regex::new(&format!(r"const {name}\s*:\s*\w+\s*=\s*([0-9_ *]+);")).expect("re");
+    let c = re.captures(src).ok_or(format!("{name}: not found as a product of integer literals"))?;
+    let mut v: u128 = 1;
+    for f in c[1].split('*') {
+        let f: String = f.chars().filter(|c| c.is_ascii_digit()).collect();
+        v = v.checked_mul(f.parse::<u128>().map_err(|e| format!("{name}: {e}"))?).ok_or(format!("{name}: overflow"))?;
+    }
+    Ok(v)
+}
+
+/// Does the routing function refuse an oversized record before anything else?
+///   Some((true, at_limit)): its first statement is `Self::h(&record)?;` / `self.h(&record)?;` where the private helper `h`
+///   is `if <param>.value.len() >= | > MAX_PACKET_SIZE { return Err(..) } Ok(())`;
+///   Some((false, _)): its first statement is the header parse (no size test at all);  None: anything else.
+fn size_gate(file: &syn::File, f: &syn::ImplItemFn) -> Option<(bool, bool)> {
+    let t = text_of(&f.block);
+    let rec = params(f).first().cloned()?;
+    if t.starts_with(&format!("{{let record_header=RecordHeader::from_record(&{rec})?;")) && !t.contains(".len()") && !t.contains("MAX_PACKET_SIZE") {
+        return Some((false, true));
+    }
+    let c = Regex::new(&format!(r"^\{{(?:Self::|self\.)(\w+)\(&{}\)\?;let record_header=RecordHeader::from_record\(&{}\)\?;", regex::escape(&rec), regex::escape(&rec))).expect("re").captures(&t)?;
+    let h = impl_fn(file, "Node", None, &c[1]).ok()?;
+    let hp = params(h).first().cloned()?;
+    let ht = text_of(&h.block);
+    let mut found = None;
+    for (l, op, r, s, e) in comparisons(&ht) {
+        let op = if l == format!("{hp}.value.len()") && r == "MAX_PACKET_SIZE" {
+            op.clone()
+        } else if r == format!("{hp}.value.len()") && l == "MAX_PACKET_SIZE" {
+            flip(&op).to_string()
+        } else {
+            continue;
+        };
+        if found.is_some() || !ht.starts_with("{if ") || s != 4 || !block_after(&ht, e).contains("return Err(") {
+            return None;
+        }
+        found = Some(op);
+    }
+    if !ht.ends_with("}Ok(())}") {
+        return None;
+    }
+    match found.as_deref() {
+        Some(">=") => Some((true, true)),
+        Some(">") => Some((true, false)),
+        _ => None,
+    }
+}
+
 pub fn generate(repo: &PathBuf) -> Result<String, String> {
     let rel = "ant-node/src/put_validation.rs";
     let file = parse_file(&repo.join(rel))?;
@@ -824,22 +1009,49 @@ pub fn generate(repo: &PathBuf) -> Result<String, String> {
     } else {
         return Err("validate_merge_and_store_transactions: signature filter has an unrecognised shape".into());
     };
-    let tx_merges_local = match Regex::new(r"let (\w+)=self\.get_local_transactions\(\w+\)\.await\?;").expect("re").captures(&txf) {
-        Some(c) => {
-            let x = regex::escape(&c[1]);
+    // old shape: `let l = self.get_local_transactions(a).await?;` (a Vec, empty when nothing is held);
+    // new shape: `let l = match self.get_local_transactions(a).await? { Some(x) => x, None if <must exist> => { return Err(InvalidPutWithoutPayment) } None => vec![] };`
+    let tx_must = tx_params.get(2).cloned();
+    let tx_new_shape = tx_must.as_ref().and_then(|m| {
+        Regex::new(&format!(
+            r"let (\w+)=match self\.get_local_transactions\(\w+\)\.await\?\{{Some\((\w+)\)=>(\w+),None if {}=>\{{return Err\(Error::InvalidPutWithoutPayment\([^;]*\)\);\}}None=>vec!\[\],\}};",
+            regex::escape(m)
+        ))
+        .expect("re")
+        .captures(&txf)
+        .filter(|c| c[2] == c[3])
+        .map(|c| c[1].to_string())
+    });
+    let tx_plain = !txf.contains("InvalidPutWithoutPayment") && tx_must.is_none();
+    let old_call = Regex::new(r"let (\w+)=self\.get_local_transactions\(\w+\)\.await\?;").expect("re").captures(&txf).map(|c| c[1].to_string());
+    let (merged_var, tx_has_check): (Option<String>, Option<bool>) = match (old_call, tx_new_shape) {
+        (Some(x), None) => (Some(x), if tx_plain { Some(false) } else { None }),
+        (None, Some(x)) => (Some(x), if txf.matches("InvalidPutWithoutPayment").count() == 1 { Some(true) } else { None }),
+        (None, None) if!txf.contains("get_local_transactions") => (None, if tx_plain { Some(false) } else { None }),
+        _ => return Err("validate_merge_and_store_transactions: get_local_transactions call has an unrecognised shape".into()),
+    };
+    let tx_merges_local = match merged_var {
+        Some(x) => {
+            let x = regex::escape(&x);
             if Regex::new(&format!(r"\w+\.extend\({x}(?:\.into_iter\(\))?\);")).expect("re").is_match(&txf) {
                 true
             } else {
                 return Err("validate_merge_and_store_transactions: local transactions fetched but not merged in the recognised way".into());
             }
         }
-        None if!txf.contains("get_local_transactions") => false,
-        None => return Err("validate_merge_and_store_transactions: get_local_transactions call has an unrecognised shape".into()),
+        None => false,
     };
     // the local copy must be of kind Transaction (a scratchpad of the same owner shares the key)
     let glt = text_of(&impl_fn(&file, "Node", None, "get_local_transactions")?.block);
     if!(glt.contains("RecordKindMismatch(RecordKind::Transaction)") && glt.contains("RecordHeader::from_record(") && glt.contains("RecordKind::Transaction")) {
         return Err("get_local_transactions: the kind check of the local record has an unrecognised shape".into());
+    }
+    if tx_has_check == Some(true) {
+        // `None` must mean exactly "no record is held": returned in the `None` arm of the local read, `Some(..)` at the end
+        let none_on_absent = Regex::new(r"match self\.network\(\)\.get_local_record\(&\w+\)\.await\?\{Some\((\w+)\)=>(\w+),None=>\{return Ok\(None\);\}\};").expect("re").captures(&glt).map(|c| c[1] == c[2]).unwrap_or(false);
+        if !none_on_absent || glt.matches("Ok(None)").count() != 1 || !Regex::new(r"Ok\(Some\(\w+\)\)\}$").expect("re").is_match(&glt) {
+            return Err("get_local_transactions: `None` is not recognisably \"no record held\"".into());
+        }
     }
 
     // registers
@@ -860,6 +1072,59 @@ pub fn generate(repo: &PathBuf) -> Result<String, String> {
     } else {
         return Err("register_validation: merge with the local copy has an unrecognised shape".into());
     };
+
+    // "update only" puts: without a (valid) payment a mutable record is accepted only as an update of the copy held
+    let pad_must = pad_params.get(3).cloned();
+    let pad_has_check: Option<bool> = match &pad_must {
+        Some(m) => {
+            // `if let Some(l) = self.network().get_local_record(&k).await? { .. } else if <m> { return Err(InvalidPutWithoutPayment) }`
+            let re = Regex::new(r"if let Some\(\w+\)=self\.network\(\)\.get_local_record\(&\w+\)\.await\?").expect("re");
+            re.find(&padf).and_then(|mm| {
+                let b = block_after(&padf, mm.end());
+                let after = &padf[mm.end() + padf[mm.end()..].find(b).unwrap_or(0) + b.len()..];
+                let want = format!("else if {m}{{return Err(Error::InvalidPutWithoutPayment(");
+                if !b.is_empty() && after.starts_with(&want) && padf.matches("InvalidPutWithoutPayment").count() == 1 { Some(true) } else { None }
+            })
+        }
+        None if pad_params.len() == 3 && !padf.contains("InvalidPutWithoutPayment") => Some(false),
+        None => None,
+    };
+    let vreg_fn = impl_fn(&file, "Node", None, "validate_and_store_register")?;
+    let vregf = text_of(&vreg_fn.block);
+    let vreg_params = params(vreg_fn);
+    let reg_has_check: Option<bool> = match vreg_params.get(2) {
+        Some(m) => {
+            // `let p = ..is_record_key_present_locally(&key).await?; .. if <m> && !p { return Err(InvalidPutWithoutPayment) }` before `register_validation(`
+            Regex::new(&format!(r"if {}&&!(\w+)\{{return Err\(Error::InvalidPutWithoutPayment\(", regex::escape(m))).expect("re").captures(&vregf).and_then(|c| {
+                let pos = c.get(0).expect("m").start();
+                let present = resolve(&vregf, &c[1]).contains("is_record_key_present_locally(");
+                let before_validation = vregf.find("register_validation(").map(|p| pos < p).unwrap_or(false);
+                if present && before_validation && vregf.matches("InvalidPutWithoutPayment").count() == 1 { Some(true) } else { None }
+            })
+        }
+        None if vreg_params.len() == 2 && !vregf.contains("InvalidPutWithoutPayment") => Some(false),
+        None => None,
+    };
+    let pad_paid = last_arg("client ScratchpadWithPayment arm", &arm(&carms, "ScratchpadWithPayment"), "validate_and_store_scratchpad_record", 3)?;
+    let pad_upd = last_arg("client Scratchpad arm", &arm(&carms, "Scratchpad"), "validate_and_store_scratchpad_record", 3)?;
+    let pad_repl = last_arg("replication Scratchpad arm", &arm(&rarms, "Scratchpad"), "validate_and_store_scratchpad_record", 3)?;
+    let pad_update_needs_local = needs_local("scratchpad update", pad_has_check, &pad_upd, &LastArg::Lit(true), &[&pad_paid, &pad_repl])?;
+    let reg_paid = last_arg("client RegisterWithPayment arm", &arm(&carms, "RegisterWithPayment"), "validate_and_store_register", 2)?;
+    let reg_upd = last_arg("client Register arm", &arm(&carms, "Register"), "validate_and_store_register", 2)?;
+    let reg_repl = last_arg("replication Register arm", &arm(&rarms, "Register"), "validate_and_store_register", 2)?;
+    let reg_update_needs_local = needs_local("register update", reg_has_check, &reg_upd, &LastArg::Lit(true), &[&reg_repl])?;
+    let reg_failed_pay_needs_local = needs_local("register upload with a failed payment", reg_has_check, &reg_paid, &LastArg::OnToleratedPaymentFailure, &[&reg_repl])?;
+    let tx_paid = last_arg("client TransactionWithPayment arm", &arm(&carms, "TransactionWithPayment"), "validate_merge_and_store_transactions", 2)?;
+    let tx_repl = last_arg("replication Transaction arm", &arm(&rarms, "Transaction"), "validate_merge_and_store_transactions", 2)?;
+    let tx_failed_pay_needs_local = needs_local("transaction upload with a failed payment", tx_has_check, &tx_paid, &LastArg::OnToleratedPaymentFailure, &[&tx_repl])?;
+
+    // the node's own size test at both entry points
+    let (client_gate, client_at_limit) = size_gate(&file, client).ok_or("validate_and_store_record: size test / first statement has an unrecognised shape")?;
+    let (repl_gate, repl_at_limit) = size_gate(&file, repl).ok_or("store_replicated_in_record: size test / first statement has an unrecognised shape")?;
+    if client_gate && repl_gate && client_at_limit != repl_at_limit {
+        return Err("the two entry points compare the record size with MAX_PACKET_SIZE differently".into());
+    }
+    let node_size_at_limit = if client_gate { client_at_limit } else { repl_at_limit };
 
     // evmlib verify_data_payment
     let ev = parse_file(&repo.join("evmlib/src/contract/payment_vault/mod.rs"))?;
@@ -928,6 +1193,30 @@ pub fn generate(repo: &PathBuf) -> Result<String, String> {
     } else {
         return Err("get_closest_k_value_local_peers: neither `once(self).chain(peers).take(K)` nor `once(self).chain(peers.take(K))`".into());
     };
+    // sizes: MAX_PACKET_SIZE, what build_node gives the record store and kad, and the request-response codec
+    let max_packet = const_value(&drv, "MAX_PACKET_SIZE")?;
+    let bn = text_of(&impl_fn(&drv, "NetworkBuilder", None, "build_node")?.block);
+    let store_max_value = if bn.contains("NodeRecordStoreConfig{max_value_bytes:MAX_PACKET_SIZE,") && bn.matches("max_value_bytes").count() == 1 {
+        max_packet
+    } else {
+        return Err("build_node: NodeRecordStoreConfig.max_value_bytes is not MAX_PACKET_SIZE in the recognised way".into());
+    };
+    let kad_max_packet = if bn.matches("set_max_packet_size(").count() == 1 && bn.contains(".set_max_packet_size(MAX_PACKET_SIZE)") {
+        max_packet
+    } else {
+        return Err("build_node: kad max packet size is not MAX_PACKET_SIZE in the recognised way".into());
+    };
+    // request-response: libp2p's cbor codec (its limits are constants of the library; the code cannot set them)
+    let bld = text_of(&impl_fn(&drv, "NetworkBuilder", None, "build")?.block);
+    if !(bld.contains("request_response::cbor::Behaviour::new(") && bld.matches("request_response::").count() >= 1) {
+        return Err("build: the request-response behaviour is no longer libp2p's cbor behaviour".into());
+    }
+    let cbor = registry_file(repo, "libp2p-request-response", "src/cbor.rs")?;
+    let cbor_req_max = const_product(&cbor, "REQUEST_SIZE_MAXIMUM")?;
+    let cbor_resp_max = const_product(&cbor, "RESPONSE_SIZE_MAXIMUM")?;
+    if !(cbor.contains("io.take(REQUEST_SIZE_MAXIMUM).read_to_end(") && cbor.contains("io.take(RESPONSE_SIZE_MAXIMUM).read_to_end(")) {
+        return Err("libp2p-request-response cbor codec: the read limits have an unrecognised shape".into());
+    }
     let cmdf = parse_file(&repo.join("ant-networking/src/cmd.rs"))?;
     let hl = toks(&impl_fn(&cmdf, "SwarmDriver", None, "handle_local_cmd")?.block).replace(' ', "");
     if!hl.contains("LocalSwarmCmd::GetClosestKLocalPeers{sender}=>{cmd_string=\"GetClosestKLocalPeers\";let_=sender.send(self.get_closest_k_value_local_peers());}") {
@@ -1035,8 +1324,20 @@ pub fn generate(repo: &PathBuf) -> Result<String, String> {
     flag("chunkAddressOffWire", "`Chunk` serialises only its value and rebuilds the address when deserialised (the name stored in `ChunkAddress` never comes off the wire)", ws.chunk_off_wire);
     flag("txAddressRecomputed", "`Transaction` has no address field; `address()` = `TransactionAddress::from_owner(owner)` = hash of the owner", ws.tx_addr);
     flag("txOrdDerived", "`Transaction` derives Ord/PartialOrd/Eq/PartialEq: a `BTreeSet<Transaction>` distinguishes transactions by every field", ws.tx_ord);
+    flag("padUpdateNeedsLocal", "unpaid `Scratchpad` upload: `get_local_record` = None ⇒ InvalidPutWithoutPayment (accepted only as an update of the copy held)", pad_update_needs_local);
+    flag("regUpdateNeedsLocal", "unpaid `Register` upload: key no longer present at the store function's own existence test ⇒ InvalidPutWithoutPayment", reg_update_needs_local);
+    flag("txFailedPayNeedsLocal", "`TransactionWithPayment` whose payment failed (tolerated because the key was reported held): local read = None ⇒ InvalidPutWithoutPayment", tx_failed_pay_needs_local);
+    flag("regFailedPayNeedsLocal", "`RegisterWithPayment` whose payment failed (tolerated because the key was reported held): key no longer present ⇒ InvalidPutWithoutPayment", reg_failed_pay_needs_local);
+    flag("clientPathRefusesOversize", "`validate_and_store_record` compares `record.value.len()` with MAX_PACKET_SIZE before anything else", client_gate);
+    flag("replPathRefusesOversize", "`store_replicated_in_record` compares `record.value.len()` with MAX_PACKET_SIZE before anything else", repl_gate);
+    flag("nodeSizeRefusesAtLimit", "that comparison is `len >= MAX_PACKET_SIZE` (true) or `>` (false)", node_size_at_limit);
     flag("closeCutAfterChain", "`get_closest_k_value_local_peers` = `once(self).chain(peers).take(K_VALUE)` (true) or `once(self).chain(peers.take(K_VALUE))` (false)", close_cut_after_chain);
     s.push_str(&format!("/-- libp2p-kad `K_VALUE` -/\ndef kValue : Nat := {kv}\n"));
+    s.push_str(&format!("/-- `MAX_PACKET_SIZE` (driver.rs) -/\ndef maxPacketSize : Nat := {max_packet}\n"));
+    s.push_str(&format!("/-- `max_value_bytes` of the record store `build_node` configures -/\ndef storeMaxValueBytes : Nat := {store_max_value}\n"));
+    s.push_str(&format!("/-- kad `set_max_packet_size` in `build_node` (bounds a whole kad message, hence a record put / fetched through kad) -/\ndef kadMaxPacketSize : Nat := {kad_max_packet}\n"));
+    s.push_str(&format!("/-- libp2p request-response cbor codec (the behaviour `build` creates; version from Cargo.lock): limit on an inbound request -/\ndef cborRequestSizeMaximum : Nat := {cbor_req_max}\n"));
+    s.push_str(&format!("/-- ... and on an inbound response (a replicated record arrives in a `GetReplicatedRecord` response) -/\ndef cborResponseSizeMaximum : Nat := {cbor_resp_max}\n"));
     s.push_str(&format!("/-- `QUOTE_EXPIRATION_SECS` -/\ndef quoteExpirationSecs : Nat := {exp_secs}\n"));
     s.push_str(&format!(
         "/-- kinds `RecordStore::put` forwards to validation even when the key is already held -/\ndef storePutAlwaysForwards : List Kind := [{}]\n",
